@@ -3,3 +3,4 @@
 cd "$(dirname "$0")/.." || exit 2
 export PYTHONHASHSEED=0 PYTHONDONTWRITEBYTECODE=1 PYTHONWARNINGS=ignore
 /venv/bin/python -B -m harness.x_lsc "${1:-140}"
+/venv/bin/python -B -m harness.x_refresh 300
